@@ -24,7 +24,7 @@ META = dict(
         quick="lists of 2 and 3 graphs drawn from the shapes {K1, K2, 2K1, P3, K3, K2+K1} plus three all-carbon 4-chains with symbolic bond orders and three all-carbon 5-rings with exactly two double bonds each (equal composition, different placement) (equal shapes with independent "
               "symbolic labels, so duplicates, relabelled copies and near-misses all arise as label assignments); element "
               "in {C,N}, charge in {0,1}, order in {1,2}; pre-grouping attribute None or the node count; every list "
-              "order (solver-chosen permutation); graphs on disjoint node ids and on one shared id set; representative library in arrival and in reversed order; batch sizes 1..m and one-shot; incremental lib_check Additionally a few two-/three-atom shards with charges in {-2,-1}: different labels whose hash() values coincide in CPython.",
+              "order (solver-chosen permutation); graphs on disjoint node ids and on one shared id set; representative library in arrival and in reversed order; batch sizes 1..m and one-shot; incremental lib_check; additionally a few two-/three-atom shards with charges in {-2,-1}: different labels whose hash() values coincide in CPython.",
         thorough="lists of up to 4 graphs",
     ),
     outside=["GML-string rules through the optional 'mod' backend", "lists longer than 4, graphs > 3 nodes",
